@@ -387,6 +387,7 @@ class SymSpec(object):
             return Ite(bz(And(idx[0] <= zr, e.isfin())), e.rv(), z3.RealVal(0))
         return SNum(FIN, sym.sum_atom(arr.axes, t))
 
+    def ppf(self, q): return shim_np.scipy_shim.stats.norm.ppf(SNum.lift(q))
     def floordiv(self, a, b): return sym.num_floordiv(SNum.lift(a), SNum.lift(b))
     def is_integer(self, x): return SBool(z3.IsInt(SNum.lift(x).rv()))
     def note_index(self, arr, k): arr.axes[0].note_index(_zidx(k))
@@ -603,6 +604,9 @@ class ConcSpec(object):
     def length_along(self, arr, d): return _np.shape(arr)[d]
     def nan_to_zero(self, x): return float(_np.nan_to_num(float(x)))
     def sum_prefix(self, arr, r, term): return float(sum(float(term(j)) for j in range(int(r) + 1)))
+    def ppf(self, q):
+        import scipy.stats
+        return scipy.stats.norm.ppf(q)
     def floordiv(self, a, b): return a // b
     def is_integer(self, x): return float(x).is_integer()
     def note_index(self, arr, k): return None
